@@ -17,8 +17,9 @@ EXTENDS Refine
 CONSTANTS Alphabet, MaxLenS, MaxStart, MaxCount, StrSize0
 Strings(n) == UNION { [1..k -> Alphabet] : k \in 0..n }
 \* read filter: texts over the characters of a numeric DATA item
-NumChars == {48, 49, 57, 46, 45}
-Texts == UNION { [1..k -> NumChars] : k \in 0..4 }
+\* (digits, point, signs, exponent letter, blank; texts that are not numbers are left unjudged by TextVal)
+NumChars == IF MaxLenS >= 4 THEN {48, 49, 57, 46, 45, 43, 69, 32} ELSE {48, 49, 57, 46, 45, 69}
+Texts == UNION { [1..k -> NumChars] : k \in 0..(IF MaxLenS >= 4 THEN 5 ELSE 4) }
 
 \* ---- running one library procedure ----
 ProcCode(name) == LibProc(name).prog
